@@ -161,7 +161,7 @@ def search(acc: Acc, tier, shard, nshards):
         for x in sp:
             acc.cls("special:" + x)
         acc.cls("with_comments" if has_comment else "without_comments")
-        m = counter["i"] % 40
+        m = ch.int(0, 39)
         entries = ("workers",) if m > 4 else ("workers", ["loads", "open", "load_file", "load_stringio", "loads"][m])
         for e in entries:
             acc.cls("entry:" + e)
